@@ -89,6 +89,11 @@ def witness_cases():
         case([op("addprov", name="pa", user="u1"), op("addprov", name="Pa", user="u2"), R, op("delprov", name="pa"), R]),
         # a provider with an upper-case letter must stay resolvable by the lower-cased name its consumers use
         case([op("addprov", name="Pb", user="u2"), op("addprov", name="pa", user="u1"), R, op("addprov", name="Pa", user="u3"), R]),
+        # the target of a reference that arrived on a deleted version of a known id gets its internal id only when the
+        # entity is written again (the predecessor's references are asserted then) - directly or through a copy job
+        case([op("create", ds=1), op("create", ds=2), op("w", ds=1, es=[[2, 40, 3, 0]]), op("w", ds=1, es=[[3, 17, 1, 1]]), R,
+              op("addjob", job=0, src=1, sink=2, paused=False, delay=0), op("run", job=0), R,
+              op("w", ds=1, es=[[3, 80, 7, 0]]), R, op("run", job=0), R, op("w", ds=2, es=[[3, 17, 1, 1], [4, 18, 3, 0]]), R]),
         # F14d: full-sync state is memory only
         case([op("create", ds=1), op("w", ds=1, es=[[1, 10, -1, 0], [2, 11, 1, 0]]),
               op("fsstart", ds=1, fs="x", es=[[1, 10, -1, 0]]), R, op("fsend", ds=1, fs="x", es=[])]),
